@@ -949,8 +949,13 @@ class Gen:
         if x < 0.66:      # field arithmetic
             num, den = self.magnitude(v)
             small = num < (1 << 30) and den <= (1 << 12)
+            # a cell (array object) that sits in m places of the vector is raised m times by the in-place `**=` (in the
+            # model too): the result must stay exact in float64 for the == comparison with the rational model
+            ids = [id(lf) for lf in leaves_of(v._data) if isinstance(lf, np.ndarray)]
+            mult = max([ids.count(i) for i in set(ids)] or [1])
+            alias_ok = max(num, 2) ** (3 ** mult) < (1 << 53) and max(den, 1) ** (3 ** mult) < (1 << 53)
             kinds = ["add", "sub", "floordiv", "mod"] + (["mul"] + ([] if has_int else ["div"]) if small else []) + (
-                ["pow"] if num < 64 and den <= 4 else [])
+                ["pow"] if num < 64 and den <= 4 and alias_ok else [])
             a = r.choice(kinds)
             if a in ("add", "sub"):
                 c = frs(r.randint(-8, 16) if has_int else self.val())
